@@ -104,5 +104,20 @@ impl<A: Ord> ObsMatrix<A> {
 //@end
 }
 
+// ---- C20 as a lemma over the contract proved above: two observation matrices with the same rows in index order (whatever
+// their strides, memory order, offset or ownership) and the same grid give histograms with the same counts in every cell ----
+proof fn lemma_layout_histogram<A: Ord>(m1: ObsMatrix<A>, m2: ObsMatrix<A>, g: Grid<A>, h1: Histogram<A>, h2: Histogram<A>)
+    requires
+        m1.rows() == m2.rows(), m1.ncols() == m2.ncols(),
+        call_ensures(ObsMatrix::<A>::histogram, (&m1, g), h1), call_ensures(ObsMatrix::<A>::histogram, (&m2, g), h2),
+    ensures
+        h1.grid == h2.grid, // [C20]
+        forall|idx: Seq<usize>| in_shape(idx, h1.counts.shape@) ==> in_shape(idx, h2.counts.shape@) && #[trigger] h1.counts@[idx] == h2.counts@[idx], // [C20]
+{
+    assert forall|idx: Seq<usize>| in_shape(idx, h1.counts.shape@) implies in_shape(idx, h2.counts.shape@) && #[trigger] h1.counts@[idx] == h2.counts@[idx] by {
+        assert(shape_matches(h1.counts.shape@, g) && shape_matches(h2.counts.shape@, g));
+    }
+}
+
 } // verus!
 fn main() {}
